@@ -8,6 +8,9 @@
 #include <limits>
 #include <set>
 #include <sstream>
+#include <algorithm>
+#include <ostream>
+#include <streambuf>
 
 #include <nop/structure.h>
 #include <nop/table.h>
@@ -319,6 +322,7 @@ struct WAdapter {
   virtual bool has_skip() const { return true; }
   virtual bool checked() const = 0;    // refuses by itself
   virtual bool unbounded() const { return false; }
+  virtual bool sink_limited() const { return false; }  // a stream over a sink that takes `cap` characters and then refuses
   virtual int prepare(uint64_t n) = 0;
   virtual int byte(uint8_t b) = 0;
   virtual int range(int w, int cnt, const uint8_t* in) = 0;
@@ -335,7 +339,7 @@ static int typed_wrange(Wr& w, int width, int cnt, const uint8_t* in) {
     default: { uint64_t b[4]; memcpy(b, in, 32); return ecode(w.Write(&b[0], &b[cnt])); }
   }
 }
-template <class Rig, bool Skip = true, bool Unbounded = false>
+template <class Rig, bool Skip = true, bool Unbounded = false, bool Limited = false>
 struct WA : WAdapter {
   Rig rig;
   std::string nm;
@@ -344,6 +348,7 @@ struct WA : WAdapter {
   bool has_skip() const override { return Skip; }
   bool checked() const override { return Rig::checked; }
   bool unbounded() const override { return Unbounded; }
+  bool sink_limited() const override { return Limited; }
   int prepare(uint64_t n) override { return ecode(rig.w.Prepare(n)); }
   int byte(uint8_t b) override { return ecode(rig.w.Write(b)); }
   int range(int w, int cnt, const uint8_t* in) override { return typed_wrange(rig.w, w, cnt, in); }
@@ -352,6 +357,36 @@ struct WA : WAdapter {
   int skip(uint64_t n, uint8_t v, bool wv) override { return skip_impl(n, v, wv, std::integral_constant<bool, Skip>{}); }
   std::vector<uint8_t> bytes() override { return rig.bytes(); }
   bool intact() override { return rig.intact(); }
+};
+// a stream whose sink accepts `cap` characters and then refuses every further one (a full device behind an ostream): the
+// StreamWriter must report the failing call like every other writer - equivalence is required up to and including the
+// first failing call, so the search does not continue after it and the partial output of the failing call is not compared
+struct CapBuf : std::streambuf {
+  std::string data;
+  size_t cap = 0;
+  int_type overflow(int_type ch) override {
+    if (traits_type::eq_int_type(ch, traits_type::eof())) return traits_type::not_eof(ch);
+    if (data.size() >= cap) return traits_type::eof();
+    data.push_back(traits_type::to_char_type(ch));
+    return ch;
+  }
+  std::streamsize xsputn(const char* p, std::streamsize n) override {
+    const size_t k = std::min<size_t>((size_t)n, cap - data.size());
+    data.append(p, k);
+    return (std::streamsize)k;
+  }
+};
+struct CapOStream : std::ostream {
+  CapBuf buf;
+  CapOStream() : std::ostream(&buf) {}
+};
+struct WStrCap {
+  static const char* name() { return "StreamWriter<fixed-capacity sink>"; }
+  static constexpr bool checked = true;
+  nop::StreamWriter<CapOStream> w;
+  explicit WStrCap(size_t cap) { w.stream().buf.cap = cap; }
+  std::vector<uint8_t> bytes() { const std::string& d = w.stream().buf.data; return std::vector<uint8_t>(d.begin(), d.end()); }
+  bool intact() { return w.stream().buf.data.size() <= w.stream().buf.cap; }
 };
 using WAFactory = std::function<std::unique_ptr<WAdapter>(size_t)>;
 template <class T>
@@ -371,6 +406,7 @@ static std::vector<WAFactory> writer_factories() {
   f.push_back(mkw<WA<WBoundedLimit<WStr>>>());
   f.push_back(mkw<WA<WBoundedInner<WPed>>>());
   f.push_back(mkw<WA<WBoundedInner<WCex>>>());
+  f.push_back(mkw<WA<WStrCap, true, false, true>>());
   return f;
 }
 struct WOp { char kind; int a; int b; };  // 'p' prepare(sel), 'b' byte, 'r' range(w,cnt), 's' skip(sel, value b)
@@ -415,6 +451,7 @@ static void explore_writers(size_t cap, const std::vector<WOp>& ops, const std::
         const WOp& o = ops[oi];
         if (o.kind == 's' && !wr->has_skip()) continue;
         const bool unb = wr->unbounded();
+        const bool lim = wr->sink_limited();
         // reference: vector with capacity
         std::vector<uint8_t> model;
         auto rem_of = [&]() -> uint64_t { return unb ? (1ULL << 40) : cap - model.size(); };
@@ -449,11 +486,11 @@ static void explore_writers(size_t cap, const std::vector<WOp>& ops, const std::
         const bool report = R.want(cid);
         const uint64_t rem = rem_of();
         // sizes that an unbounded sink would really have to materialise are not issued (2^63 bytes of padding)
-        if (unb && o.kind == 's' && rsel(o.a, rem) > (1u << 20)) continue;
+        if ((unb || lim) && o.kind == 's' && rsel(o.a, rem) > (1u << 20)) continue;
         // BufferWriter's documented contract: callers guard every write with Prepare; only issue fitting calls
         const bool guarded_only = !wr->checked() && !unb;
         std::vector<uint8_t> before = model;
-        const bool should_ok = apply_model(o, salt);
+        const bool should_ok = apply_model(o, salt) || (lim && o.kind == 'p');  // a stream cannot know its sink's capacity in Prepare
         if (guarded_only && !should_ok && o.kind != 'p') { model = before; continue; }
         int e = apply_real(*wr, o, salt, rem);
         if (report) { R.counters["transitions"]++; R.counters["evaluations"]++; }
@@ -464,6 +501,10 @@ static void explore_writers(size_t cap, const std::vector<WOp>& ops, const std::
           else if (got != model) why = "byte stream " + hex(got) + " differs from the reference " + hex(model);
         } else {
           if (!e) why = "call succeeded although it exceeds the capacity";
+          else if (lim) {
+            if (e != (int)nop::ErrorStatus::StreamError) why = std::string("the sink refused characters but the call returned ") + ename(e) + " instead of StreamError";
+            else if (got.size() < before.size() || !std::equal(before.begin(), before.end(), got.begin())) why = "bytes written by earlier successful calls changed";
+          }
           else if (e != WLR) why = std::string("refused with ") + ename(e) + " instead of WriteLimitReached";
           else if (got != before) why = "a refused call changed the byte stream";
         }
